@@ -34,7 +34,7 @@ func alphaT(o []byte) []byte { return append(cloneB(o), 0) }
 func newAlphaString[V any](raw []RawKey, vt valType[V]) TreeDriver {
 	var cs []cand[string]
 	for _, r := range raw {
-		cs = append(cs, cand[string]{string(r.B), r.Probe})
+		cs = append(cs, cand[string]{k: string(r.B), probe: r.Probe})
 	}
 	cs, _ = buildUniverse(cs, strings.Compare)
 	d := &Driver[string, V]{
@@ -56,7 +56,7 @@ func newAlphaString[V any](raw []RawKey, vt valType[V]) TreeDriver {
 func newAlphaBytes[V any](raw []RawKey, vt valType[V]) TreeDriver {
 	var cs []cand[[]byte]
 	for _, r := range raw {
-		cs = append(cs, cand[[]byte]{cloneB(r.B), r.Probe})
+		cs = append(cs, cand[[]byte]{k: cloneB(r.B), probe: r.Probe})
 	}
 	cs, _ = buildUniverse(cs, bytes.Compare)
 	d := &Driver[[]byte, V]{
@@ -118,7 +118,7 @@ func newUnsigned[K interface {
 }, V any](name string, w int, raw []RawKey, vt valType[V]) TreeDriver {
 	var cs []cand[K]
 	for _, r := range raw {
-		cs = append(cs, cand[K]{K(pattern(r.B, w)), r.Probe})
+		cs = append(cs, cand[K]{k: K(pattern(r.B, w)), probe: r.Probe})
 	}
 	cs, _ = buildUniverse(cs, cmpOrdered[K])
 	codec := art.UnsignedBinaryKey[K]{}
@@ -146,7 +146,7 @@ func newSigned[K interface {
 		p := pattern(r.B, w)
 		// sign-extend the w-byte pattern
 		shift := uint(64 - 8*w)
-		cs = append(cs, cand[K]{K(int64(p<<shift) >> shift), r.Probe})
+		cs = append(cs, cand[K]{k: K(int64(p<<shift) >> shift), probe: r.Probe})
 	}
 	cs, _ = buildUniverse(cs, cmpOrdered[K])
 	codec := art.SignedBinaryKey[K]{}
@@ -193,6 +193,31 @@ func floatCmp(a, b float64) int {
 	return 0
 }
 
+// All NaNs are one key: every time the NaN key is handed to a tree it carries another payload / sign.
+func nanPayload64() func(float64) float64 {
+	i := 0
+	pats := []uint64{0x7ff8000000000001, 0xfff8000000000000, 0x7ff0000000000001, 0xffffffffffffffff, 0x7ff8000000000000, 0xfff0000000000002}
+	return func(f float64) float64 {
+		if f != f {
+			i++
+			return math.Float64frombits(pats[i%len(pats)])
+		}
+		return f
+	}
+}
+
+func nanPayload32() func(float32) float32 {
+	i := 0
+	pats := []uint32{0x7fc00000, 0xffc00000, 0x7f800001, 0xffffffff, 0x7fc00001, 0xff800002}
+	return func(f float32) float32 {
+		if f != f {
+			i++
+			return math.Float32frombits(pats[i%len(pats)])
+		}
+		return f
+	}
+}
+
 func floatIdent64(f float64) string {
 	if f != f {
 		return "f:NaN"
@@ -213,7 +238,7 @@ func floatRangeOK(a, b float64) bool {
 func newFloat64[V any](raw []RawKey, vt valType[V]) TreeDriver {
 	var cs []cand[float64]
 	for _, r := range raw {
-		cs = append(cs, cand[float64]{math.Float64frombits(pattern(r.B, 8)), r.Probe})
+		cs = append(cs, cand[float64]{k: math.Float64frombits(pattern(r.B, 8)), probe: r.Probe})
 	}
 	cs, _ = buildUniverse(cs, floatCmp)
 	codec := art.FloatBinaryKey[float64]{}
@@ -224,6 +249,7 @@ func newFloat64[V any](raw []RawKey, vt valType[V]) TreeDriver {
 		mkVal:   vt.mk, valID: vt.id,
 		hasRange: true, leafByT: true,
 		rangeOK: floatRangeOK,
+		passKey: nanPayload64(),
 	}
 	for _, c := range cs {
 		_, t := codec.Transform(c.k)
@@ -237,7 +263,7 @@ func newFloat64[V any](raw []RawKey, vt valType[V]) TreeDriver {
 func newFloat32[V any](raw []RawKey, vt valType[V]) TreeDriver {
 	var cs []cand[float32]
 	for _, r := range raw {
-		cs = append(cs, cand[float32]{math.Float32frombits(uint32(pattern(r.B, 4))), r.Probe})
+		cs = append(cs, cand[float32]{k: math.Float32frombits(uint32(pattern(r.B, 4))), probe: r.Probe})
 	}
 	cs, _ = buildUniverse(cs, func(a, b float32) int { return floatCmp(float64(a), float64(b)) })
 	codec := art.FloatBinaryKey[float32]{}
@@ -253,6 +279,7 @@ func newFloat32[V any](raw []RawKey, vt valType[V]) TreeDriver {
 		mkVal:   vt.mk, valID: vt.id,
 		hasRange: true, leafByT: true,
 		rangeOK: func(a, b float32) bool { return floatRangeOK(float64(a), float64(b)) },
+		passKey: nanPayload32(),
 	}
 	for _, c := range cs {
 		_, t := codec.Transform(c.k)
@@ -299,6 +326,9 @@ func prefixFreeT[K any](cs []cand[K], tof func(K) []byte) ([]cand[K], int) {
 	for i, c := range cs {
 		bad := false
 		for j := range cs {
+			if c.probe || cs[j].probe {
+				continue // only what can be stored has to be prefix-free
+			}
 			if i != j && bytes.HasPrefix(ts[j], ts[i]) && (len(ts[i]) < len(ts[j]) || j < i) {
 				bad = true
 				break
@@ -326,14 +356,14 @@ func newCollation[V any](ktype, cname string, raw []RawKey, plainPrefix bool, vt
 	oracle := mkCollator(spec)
 	var cs []cand[string]
 	for _, r := range raw {
-		cs = append(cs, cand[string]{string(r.B), r.Probe})
+		cs = append(cs, cand[string]{k: string(r.B), probe: r.Probe})
 	}
-	cs, _ = buildUniverse(cs, func(a, b string) int { return oracle.CompareString(a, b) })
+	cs, _ = buildUniverseT(cs, func(a, b string) int { return oracle.CompareString(a, b) }, func(a, b string) bool { return a != b })
 	cs, _ = prefixFreeT(cs, func(s string) []byte { return collKeyOf(oracle, []byte(s)) })
 	name := "collation/" + ktype + "/" + spec.name
 	fill := func(uni *[]UEntry) {
 		for _, c := range cs {
-			*uni = append(*uni, UEntry{O: []byte(c.k), T: collKeyOf(oracle, []byte(c.k)), Probe: c.probe})
+			*uni = append(*uni, UEntry{O: []byte(c.k), T: collKeyOf(oracle, []byte(c.k)), Probe: c.probe, Twin: c.twin})
 		}
 	}
 	switch ktype {
@@ -613,7 +643,7 @@ func rawToTuple(s Schema, b []byte) Tuple {
 func newCompound[V any](s Schema, raw []RawKey, vt valType[V]) TreeDriver {
 	var cs []cand[Tuple]
 	for _, r := range raw {
-		cs = append(cs, cand[Tuple]{rawToTuple(s, r.B), r.Probe})
+		cs = append(cs, cand[Tuple]{k: rawToTuple(s, r.B), probe: r.Probe})
 	}
 	cs, _ = buildUniverse(cs, tupleCmp(s))
 	codec := tupleCodec{s}
